@@ -354,16 +354,28 @@ class Ex:
             self.assumptions_used.add(why)
 
     def sync_consts(self):
-        """f(c) == CPython f(c) for every unary string function in use and every string literal seen."""
+        """Closed facts f(c) == CPython f(c) for the uninterpreted string functions in use and every string literal seen."""
         from .values import SEEN_STR
-        if not self.used_uf or len(SEEN_STR) > 600:
+        if len(SEEN_STR) > 600:
             return
-        for name, (f, pyf) in self.used_uf.items():
-            for c in list(SEEN_STR):
-                if (name, c) in self._inst_done:
+        gens = list(self.used_uf.values()) + list(self.models.ALWAYS_INSTANTIATE)
+        if not gens:
+            return
+        for c in list(SEEN_STR):
+            if c in self._inst_done:
+                continue
+            n_before = len(self._inst_done)
+            for g in gens:
+                key = (g[0].name() if not callable(g) else g.__name__, c)
+                if key in self._inst_done:
                     continue
-                self._inst_done.add((name, c))
-                self.solver.add(f(z3.StringVal(c)) == z3.StringVal(pyf(c)))
+                self._inst_done.add(key)
+                if callable(g):
+                    for f in g(c):
+                        self.solver.add(f)
+                else:
+                    f, pyf = g
+                    self.solver.add(f(z3.StringVal(c)) == z3.StringVal(pyf(c)))
 
     def _check(self, extra, timeout):
         self.sync_consts()
